@@ -29,7 +29,10 @@ META = {
             "implementation's body_weldid; dedicated chain scenes put jointless bodies on jointed links and on the world with geoms "
             "overlapping the weld group one joint up, parent filter on and off; margin scenes place multi-geom bodies with large margins / gaps "
             "at surface distances around the sum of the margins - separated but within margin, and just outside - with explicit inertial "
-            "frames; a fixed sweep corpus does the same with two-sphere bodies). Not covered: flex, "
+            "frames; a fixed sweep corpus does the same with two-sphere bodies; static / mocap bodies with planes are declared before or "
+            "after the moving bodies, so that a plane is the first or the second geom of its pairs; an mju_error raised by mj_collision on a "
+            "compiled scene is an impl_violation - that is how the 'broadphase buffer full' defect repaired in /repo 3ff575b68 was found, "
+            "its scene is kept as corpus). Not covered: flex, "
             "mesh/hfield/SDF geoms, sleeping (mjENBL_SLEEP), NaN coordinates, IEEE rounding beyond the monotone-map abstraction.",
     "note": "Trusted: Coq kernel; hand-written model Model/Broadphase.v (arrays as lists, float cast as an abstract monotone map, "
             "C ints as Z); correspondence harness (gcc, driver c14_bp.c which #includes engine_collision_driver.c; Python float32 rounding "
@@ -336,6 +339,9 @@ def run(ctx):
     for k in range(8):
         for (ds, en, om) in (variants[0], variants[2]):
             cmds.append(("SCENE", (1, -100 - k, ds, en, om)))
+    # fixed corpus scene (nb = -200): plane bodies declared after the moving bodies, exact-fit pair buffer (former "broadphase buffer full")
+    for (ds, en, om) in (variants[0], variants[2]):
+        cmds.append(("SCENE", (1, -200, ds, en, om)))
     # chain scenes (nb = 0): jointless tool bodies welded to jointed links / to the world, geoms overlapping the weld group one joint up;
     # parent filter on and off
     for i in range(12 if quick else 300):
@@ -468,10 +474,20 @@ def run(ctx):
             model_tie = nb >= 0 or nmargin_seen <= (20 if quick else 300)
             case = {"op": "scene" if nb > 0 else "chain scene (jointless bodies welded to links / world)" if nb == 0 else
                     "margin scene (geoms separated but within margin)" if nb > -100 else
-                    "sweep scene %d (two-sphere bodies, surface distance between max and sum of the margins)" % (-nb - 100), "seed": seed, "nbody": nb,
+                    "sweep scene %d (two-sphere bodies, surface distance between max and sum of the margins)" % (-nb - 100) if nb > -200 else
+                    "corpus scene: world box, 3 overlapping free spheres, static + mocap plane bodies declared last", "seed": seed, "nbody": nb,
                     "disableflags": ds, "enableflags": en, "o_margin": om}
             if not sc["ok"] or "BF" not in sc:
-                ctx.broken.append(("correspondence", "scene did not run", "%s -> %s" % (text(c), " | ".join(o)[:400]))); continue
+                head = " | ".join(o)[:400]
+                if head.startswith("SCENE error"):
+                    # the model compiled and mj_collision raised mju_error: no contact list at all for a legal model
+                    ctx.violation("impl_violation", dict(case, driver_input=text(c)), expected="mj_collision returns a contact list",
+                                  observed=head, theorem="oracle: brute-force all pairs",
+                                  signature={"site": "mj_broadphase" if "broadphase buffer full" in head else "mj_collision",
+                                             "class": "buffer_full_error" if "broadphase buffer full" in head else "engine_error"})
+                else:
+                    ctx.broken.append(("correspondence", "scene did not run", "%s -> %s" % (text(c), head)))
+                continue
             obs = [frozenset(pr) for pr in sc["C"]]
             obs_set = set(obs)
             exp_set, exp, req_set = expected_pairs(sc, ds, bool(en & ENBL_OVERRIDE))
